@@ -70,3 +70,88 @@ func init() {
 		fmt.Println("sites:", len(ws))
 	}
 }
+
+func init() {
+	explorations["bnd"] = func(p *Prog) {
+		roots, missing := bndWireRoots(p)
+		for _, m := range missing {
+			fmt.Println("MISSING ROOT", m)
+		}
+		inPkg := func(pk string) bool {
+			return pk == modPath+"/internal/wire" || pk == modPath+"/quicvarint" || pk == modPath+"/internal/protocol"
+		}
+		fns := p.reachStatic(roots, inPkg)
+		unp, err := compilerUnproven(p.RepoDir, p.GOARCH, []string{"./internal/wire/", "./quicvarint/", "./internal/protocol/"})
+		if err != nil {
+			fmt.Println(err)
+			return
+		}
+		sites := p.bndSites(fns, unp, nil)
+		cnt := map[string]int{}
+		for _, s := range sites {
+			if s.OK {
+				cnt[s.How]++
+				if s.How == "F" {
+					fmt.Printf("F   %-38s %s: %s\n", p.InstrPos(s.Instr), s.Expr, s.Why)
+				}
+			} else {
+				cnt["open"]++
+				fmt.Printf("OPEN %-38s %s: %s\n", p.InstrPos(s.Instr), s.Expr, s.Why)
+			}
+		}
+		fmt.Printf("functions=%d sites=%d %v unproven-by-compiler=%d\n", len(fns), len(sites), cnt, len(unp))
+	}
+}
+
+func init() {
+	explorations["bnd2"] = func(p *Prog) {
+		type scope struct {
+			name  string
+			roots [][3]string
+			pkgs  []string
+			build []string
+		}
+		scopes := []scope{
+			{"handshake", [][3]string{{"internal/handshake", "TokenGenerator", "DecodeToken"}, {"internal/handshake", "sessionTicket", "Unmarshal"}, {"internal/handshake", "tokenProtector", "DecodeToken"}}, []string{"/internal/handshake"}, []string{"./internal/handshake/"}},
+			{"http3", [][3]string{{h3, "frameParser", "ParseNext"}, {h3, "", "ParseCapsule"}, {h3, "", "parseHeaders"}, {h3, "", "parseTrailers"}, {h3, "rawConn", "receiveDatagrams"}, {h3, "", "parseSettingsFrame"}}, []string{"/http3"}, []string{"./http3/"}},
+			{"sni", [][3]string{{"", "", "findSNIAndECH"}, {"", "initialCryptoStream", "Write"}, {"", "initialCryptoStream", "PopCryptoFrame"}}, []string{""}, []string{"."}},
+			{"uquic-builders", [][3]string{{"", "QUICFrames", "Build"}, {"", "QUICFrames", "BuildForDatagram"}, {"", "QUICRandomFrames", "Build"}, {"", "QUICFlightFrames", "BuildFlight"}, {"", "QUICRandomFlightFrames", "BuildFlight"}, {"", "uPacketPacker", "MarshalInitialPacketPayload"}, {"", "uPacketPacker", "planInitialFlight"}, {"", "uPacketPacker", "plannedInitialPayload"}}, []string{""}, []string{"."}},
+		}
+		for _, sc := range scopes {
+			var roots []*ssa.Function
+			for _, r := range sc.roots {
+				f, err := p.Func1(r[0], r[1], r[2])
+				if err != nil {
+					fmt.Println("MISSING", r)
+					continue
+				}
+				roots = append(roots, f)
+			}
+			inPkg := func(pk string) bool {
+				for _, s := range sc.pkgs {
+					if pk == modPath+s {
+						return true
+					}
+				}
+				return false
+			}
+			fns := p.reachStatic(roots, inPkg)
+			unp, err := compilerUnproven(p.RepoDir, p.GOARCH, sc.build)
+			if err != nil {
+				fmt.Println(err)
+				continue
+			}
+			sites := p.bndSites(fns, unp, nil)
+			cnt := map[string]int{}
+			for _, s := range sites {
+				if s.OK {
+					cnt[s.How]++
+				} else {
+					cnt["open"]++
+					fmt.Printf("OPEN %-34s %s: %s\n", p.InstrPos(s.Instr), s.Expr, s.Why)
+				}
+			}
+			fmt.Printf("== %s functions=%d sites=%d %v unproven-by-compiler=%d\n", sc.name, len(fns), len(sites), cnt, len(unp))
+		}
+	}
+}
